@@ -283,8 +283,13 @@ def abstract_compute_swap(I, args):
     """compute_swap as an uninterpreted function of its arguments: identical argument terms give the identical
     result (fresh variables memoised on the argument tuple); Ok or Err is part of the result.  Used where the
     obligation is about the glue around the pricing kernel (routes, single-asset chain), never about prices."""
+    from ..models_core import deref
     key = []
-    for a in args:
+    pool = deref(args[0])
+    # the arguments the kernel can depend on: reserves, decimals, type, fees, offer, ask denom (not the switches / ids)
+    for fld in ('assets', 'asset_decimals', 'pool_type', 'pool_fees'):
+        _leaves(pool.get(fld), key)
+    for a in args[1:]:
         _leaves(a, key)
     key = ('compute_swap', tuple(key))
     memo = I.world.meta.setdefault('uf_memo', {})
@@ -314,4 +319,4 @@ def abstract_compute_swap(I, args):
 
 
 ABSTRACT_PRICING = {'pool-manager::compute_swap': abstract_compute_swap}
-ABSTRACT_PRICING_NOTE = 'compute_swap replaced by an uninterpreted function (same arguments => same result, Ok/Err included)'
+ABSTRACT_PRICING_NOTE = 'compute_swap replaced by an uninterpreted function of (reserves, decimals, pool type, fees, offer, ask denom): same arguments => same result, Ok/Err included'
